@@ -252,6 +252,12 @@ class SplitTrace(object):
         return out
 
 
+def part_name(i):
+    """file name of the i-th entry of data_path_list; list order differs
+    from the alphabetical order of the names (03, 00, 07, 04, ...)"""
+    return 'part_%02d.h5ad' % ((7 * i + 3) % 10)
+
+
 def write_inputs(d, ref, cfg, with_obs_levels=False):
     """one h5ad per file of the split; returns the paths"""
     if cfg.norm == 'raw':
@@ -263,7 +269,7 @@ def write_inputs(d, ref, cfg, with_obs_levels=False):
     paths = []
     anc = ref.ancestors()
     for i, (idx, enc) in enumerate(zip(cfg.files, cfg.encodings)):
-        p = pathlib.Path(d) / ('part_%02d.h5ad' % i)
+        p = pathlib.Path(d) / part_name(i)
         obs_cols = None
         if with_obs_levels:
             obs_cols = {lvl: [anc[ref.label[ref.names[j]]][lvl] for j in idx]
@@ -696,7 +702,7 @@ def check_run(ctx, ref, cfg, frontend='list', baseline=None):
         ml = model_loads(ctx, ref, cfg, tree_cells)
         impl_loads = res['loads']
         if impl_loads is not None and None not in impl_loads:
-            name_to_idx = {('part_%02d.h5ad' % i): i
+            name_to_idx = {part_name(i): i
                            for i in range(len(cfg.files))}
             il = [[[name_to_idx[c[0]], c[1], c[2]] for c in load]
                   for load in impl_loads]
@@ -764,110 +770,193 @@ def write_reference_stats(ref, cfg, d, subset=None):
     return res
 
 
-def check_truncate(ctx, ref, cfg):
+def permute_stats_file(path, perm):
+    """rewrite a statistics file with its rows permuted: row r of every
+    array moves to row perm[r] and cluster_to_row is rewritten accordingly
+    (still a valid statistics file; rows no longer in alphabetical order)"""
+    with h5py.File(path, 'r') as f:
+        keys = list(f.keys())
+        data = {k: f[k][()] for k in keys}
+    c2r = json.loads(data['cluster_to_row'].decode('utf-8'))
+    n = len(c2r)
+    inv = [0] * n
+    for r, pr in enumerate(perm):
+        inv[pr] = r
+    new_c2r = {k: int(perm[r]) for k, r in c2r.items()}
+    # dict order of the table also shuffled (reverse) so that neither the
+    # row numbers nor the key order are alphabetical
+    new_c2r = {k: new_c2r[k] for k in reversed(list(new_c2r))}
+    with h5py.File(path, 'w') as f:
+        for k in keys:
+            if k == 'cluster_to_row':
+                f.create_dataset(k, data=json.dumps(new_c2r).encode('utf-8'))
+            elif k in ('n_cells',) + STAT_KEYS:
+                f.create_dataset(k, data=data[k][inv])
+            else:
+                f.create_dataset(k, data=data[k])
+
+
+def random_perm(rng, n):
+    perm = list(range(n))
+    rng.shuffle(perm)
+    return perm
+
+
+def truncate_step(ctx, ref, cfg, src_path, src_stats, src_h, new_h,
+                  out_path, detail):
+    """one call of truncate_precomputed_stats_file from a file with hierarchy
+    src_h (the written file or itself the result of a truncation) to new_h:
+    census of the coarser labelling, tree, model. Returns the new stats."""
+    from cell_type_mapper.diff_exp.truncate_precompute import (
+        truncate_precomputed_stats_file)
+    anc = ref.ancestors()
+    tol = tol_of(cfg)
+    eff = effective_label(ref, cfg)
+    src_leaf_level = src_h[-1]
+    ctx.count('truncate:%s' % ('same-leaves' if new_h[-1] == src_leaf_level
+                               else 'collapse'))
+    with pipeline.quiet():
+        try:
+            truncate_precomputed_stats_file(
+                input_path=src_path, output_path=out_path,
+                new_hierarchy=list(new_h))
+            err = None
+        except Exception as e:   # noqa
+            err = classify(e)
+    ctx.case(json.dumps(detail, sort_keys=True, default=repr)
+             if nontrivial(ref, cfg) else None)
+    if err is not None:
+        ctx.violation('C09/truncate/crash/' + err.split(':')[0],
+                      'truncation %r -> %r fails: %s' % (src_h, new_h, err),
+                      detail)
+        return None
+    got = read_stats(out_path)
+    new_leaf_level = new_h[-1]
+    new_leaves = sorted(set(anc[l][new_leaf_level] for l in ref.leaves))
+    want = census(
+        ref, cfg,
+        label_of=lambda nm: (None if eff[nm] is None else
+                             anc[eff[nm]][new_leaf_level]))
+    probs = check_against_census(got, want, new_leaves, ref.genes,
+                                 tol, ref.n_genes)
+    if not probs:
+        tt = got['taxonomy_tree']
+        if tt['hierarchy'] != list(new_h):
+            probs.append(('hierarchy', tt['hierarchy']))
+        elif sorted(tt[new_leaf_level].keys()) != new_leaves:
+            probs.append(('tree-leaves',))
+        else:
+            # ancestors of every new leaf are the old ones
+            for lvl_p, lvl_c in zip(new_h[:-1], new_h[1:]):
+                kids = {}
+                for l in ref.leaves:
+                    kids.setdefault(anc[l][lvl_p], set()).add(anc[l][lvl_c])
+                if {k: set(v) for k, v in tt[lvl_p].items()} != kids:
+                    probs.append(('tree-edges', lvl_p))
+    if probs:
+        ctx.violation(
+            'C09/truncate/census/' + str(probs[0][0]),
+            'truncated file (%r -> %r) is not the statistics of the coarser '
+            'hierarchy: %r' % (src_h, new_h, probs[0]),
+            dict(detail, problems=probs[:5]))
+    # model
+    if ctx.driver_ok and new_leaf_level != src_leaf_level:
+        old_nodes = sorted(set(anc[l][src_leaf_level] for l in ref.leaves))
+        old_ids = {l: i for i, l in enumerate(old_nodes)}
+        up = {anc[l][src_leaf_level]: anc[l][new_leaf_level]
+              for l in ref.leaves}
+        new_ids = {l: i for i, l in enumerate(new_leaves)}
+        # all_leaves order of the new / old tree as the code sees it
+        old_order = list(src_stats['taxonomy_tree'][src_leaf_level])
+        new_order = list(got['taxonomy_tree'][new_leaf_level])
+        out = ctx.model('stats.truncate', {
+            'g': ref.n_genes,
+            'data': buffer_to_json(src_stats),
+            'oldLeafToRow': [[old_ids[l], r] for l, r in
+                             src_stats['cluster_to_row'].items()],
+            'newLeaves': [new_ids[l] for l in new_order],
+            'anc': [[old_ids[l], new_ids[up[l]]] for l in old_order]})
+        if 'err' in out:
+            mp = [('model-error', out['err'])]
+        else:
+            mp = compare_buffer(out['ok'], got, tol)
+            c2r = {l: i for i, l in enumerate(new_order)}
+            if got['cluster_to_row'] != c2r:
+                mp.append(('cluster_to_row',))
+        if mp:
+            ctx.disagreements_checked += 1
+            if not probs:
+                ctx.violation(
+                    'C09/correspondence/truncate/' + str(mp[0][0]),
+                    'correspondence stats.truncate no longer '
+                    'checks: %r' % (mp[0],),
+                    dict(detail, problems=mp[:5],
+                         broken='correspondence CTM.Stats.truncate ~ '
+                                'truncate_precomputed_stats_file'),
+                    found_input=False)
+    return got
+
+
+def proper_subhierarchies(h):
+    out = []
+    for k in range(1, len(h)):
+        for comb in itertools.combinations(h, k):
+            out.append(list(comb))
+    return out
+
+
+def check_truncate(ctx, ref, cfg, row_perm='random', only=None):
+    """every coarsening of the written file (rows optionally permuted so
+    that cluster_to_row is not alphabetical), and every coarsening of each
+    coarsened file again (two-step: the intermediate file's rows follow the
+    tree's dict order)"""
     from cell_type_mapper.diff_exp.truncate_precompute import (
         truncate_precomputed_stats_file)
     if len(ref.h) < 2:
         return
-    ids = Ids(ref)
-    anc = ref.ancestors()
-    tol = tol_of(cfg)
-    eff = effective_label(ref, cfg)
     with pipeline.workdir('c09t_') as d:
         res = run_precompute(ref, cfg, d)
         if not res['ok']:
             return
+        if row_perm == 'random':
+            row_perm = random_perm(ctx.rng, len(ref.leaves)) \
+                if ctx.rng.random() < 0.7 else None
+        if row_perm is not None:
+            permute_stats_file(res['path'], row_perm)
+            res['stats'] = read_stats(res['path'])
+        ctx.count('truncate-source-rows:%s' % (
+            'permuted' if row_perm is not None else 'alphabetical'))
         src_stats = res['stats']
-        subsets = []
-        for k in range(1, len(ref.h)):
-            for comb in itertools.combinations(ref.h, k):
-                subsets.append(list(comb))
-        if ctx.tier == 'quick' and len(subsets) > 4:
+        subsets = proper_subhierarchies(ref.h)
+        if only is not None:
+            subsets = [only[0]]
+        elif ctx.tier == 'quick' and len(subsets) > 4:
             subsets = ctx.rng.sample(subsets, 4)
+        n_out = 0
         for new_h in subsets:
             detail = ref_detail(ref, cfg, {'kind': 'truncate',
+                                           'row_perm': row_perm,
                                            'new_hierarchy': new_h})
-            out_path = pathlib.Path(d) / ('trunc_%d.h5' % subsets.index(new_h))
-            ctx.count('truncate:%s' % ('same-leaves' if new_h[-1] == ref.h[-1]
-                                       else 'collapse'))
-            with pipeline.quiet():
-                try:
-                    truncate_precomputed_stats_file(
-                        input_path=res['path'], output_path=out_path,
-                        new_hierarchy=list(new_h))
-                    err = None
-                except Exception as e:   # noqa
-                    err = classify(e)
-            ctx.case(json.dumps(detail, sort_keys=True, default=repr)
-                     if nontrivial(ref, cfg) else None)
-            if err is not None:
-                ctx.violation('C09/truncate/crash/' + err.split(':')[0],
-                              'truncation to %r fails: %s' % (new_h, err),
-                              detail)
+            out_path = pathlib.Path(d) / ('trunc_%d.h5' % n_out)
+            n_out += 1
+            got = truncate_step(ctx, ref, cfg, res['path'], src_stats,
+                                list(ref.h), new_h, out_path, detail)
+            if got is None or len(new_h) < 2:
                 continue
-            got = read_stats(out_path)
-            new_leaf_level = new_h[-1]
-            new_leaves = sorted(set(anc[l][new_leaf_level]
-                                    for l in ref.leaves))
-            want = census(
-                ref, cfg,
-                label_of=lambda nm: (None if eff[nm] is None else
-                                     anc[eff[nm]][new_leaf_level]))
-            probs = check_against_census(got, want, new_leaves, ref.genes,
-                                         tol, ref.n_genes)
-            if not probs:
-                tt = got['taxonomy_tree']
-                if tt['hierarchy'] != list(new_h):
-                    probs.append(('hierarchy', tt['hierarchy']))
-                elif sorted(tt[new_leaf_level].keys()) != new_leaves:
-                    probs.append(('tree-leaves',))
-                else:
-                    # ancestors of every new leaf are the old ones
-                    for lvl_p, lvl_c in zip(new_h[:-1], new_h[1:]):
-                        kids = {}
-                        for l in ref.leaves:
-                            kids.setdefault(anc[l][lvl_p], set()).add(
-                                anc[l][lvl_c])
-                        if {k: set(v) for k, v in tt[lvl_p].items()} != kids:
-                            probs.append(('tree-edges', lvl_p))
-            if probs:
-                ctx.violation(
-                    'C09/truncate/census/' + str(probs[0][0]),
-                    'truncated file is not the statistics of the coarser '
-                    'hierarchy %r: %r' % (new_h, probs[0]),
-                    dict(detail, problems=probs[:5]))
-            # model
-            if ctx.driver_ok and new_leaf_level != ref.leaf_level:
-                new_ids = {l: i for i, l in enumerate(new_leaves)}
-                # all_leaves order of the new / old tree as the code sees it
-                old_order = list(src_stats['taxonomy_tree'][ref.leaf_level])
-                new_order = list(got['taxonomy_tree'][new_leaf_level])
-                out = ctx.model('stats.truncate', {
-                    'g': ref.n_genes,
-                    'data': buffer_to_json(src_stats),
-                    'oldLeafToRow': [[ids.leaf[l], r] for l, r in
-                                     src_stats['cluster_to_row'].items()],
-                    'newLeaves': [new_ids[l] for l in new_order],
-                    'anc': [[ids.leaf[l], new_ids[anc[l][new_leaf_level]]]
-                            for l in old_order]})
-                if 'err' in out:
-                    mp = [('model-error', out['err'])]
-                else:
-                    mp = compare_buffer(out['ok'], got, tol)
-                    c2r = {l: i for i, l in enumerate(new_order)}
-                    if got['cluster_to_row'] != c2r:
-                        mp.append(('cluster_to_row',))
-                if mp:
-                    ctx.disagreements_checked += 1
-                    if not probs:
-                        ctx.violation(
-                            'C09/correspondence/truncate/' + str(mp[0][0]),
-                            'correspondence stats.truncate no longer '
-                            'checks: %r' % (mp[0],),
-                            dict(detail, problems=mp[:5],
-                                 broken='correspondence CTM.Stats.truncate ~ '
-                                        'truncate_precomputed_stats_file'),
-                            found_input=False)
+            seconds = proper_subhierarchies(new_h)
+            if only is not None:
+                seconds = [only[1]] if len(only) > 1 and only[1] else []
+            elif ctx.tier == 'quick' and len(seconds) > 2:
+                seconds = ctx.rng.sample(seconds, 2)
+            for second_h in seconds:
+                detail2 = dict(detail, second_hierarchy=second_h)
+                out2 = pathlib.Path(d) / ('trunc_%d.h5' % n_out)
+                n_out += 1
+                ctx.count('truncate:two-step')
+                truncate_step(ctx, ref, cfg, out_path, got, list(new_h),
+                              second_h, out2, detail2)
+        if only is not None:
+            return
         # bad requests are refused
         for bad, label in ((list(ref.h), 'same'),
                            (list(reversed(ref.h)), 'shuffled'),
@@ -895,7 +984,7 @@ def check_truncate(ctx, ref, cfg):
                                                     'new_hierarchy': bad}))
 
 
-def check_merge(ctx, ref, cfg, rng, subsets=None):
+def check_merge(ctx, ref, cfg, rng, subsets=None, row_perm='random'):
     from cell_type_mapper.diff_exp.precompute_utils import (
         merge_precompute_files)
     tol = tol_of(cfg)
@@ -909,7 +998,13 @@ def check_merge(ctx, ref, cfg, rng, subsets=None):
         if n_sets >= 2 and rng.random() < 0.5:
             subsets[1] = list(subsets[0])     # full tie
     n_sets = len(subsets)
-    detail = ref_detail(ref, cfg, {'kind': 'merge', 'subsets': subsets})
+    if row_perm == 'random':
+        row_perm = random_perm(rng, len(ref.leaves)) \
+            if rng.random() < 0.7 else None
+    ctx.count('merge-rows:%s' % ('permuted' if row_perm is not None
+                                 else 'alphabetical'))
+    detail = ref_detail(ref, cfg, {'kind': 'merge', 'subsets': subsets,
+                                   'row_perm': row_perm})
     with pipeline.workdir('c09m_') as d:
         paths = []
         per = []
@@ -928,6 +1023,11 @@ def check_merge(ctx, ref, cfg, rng, subsets=None):
                 return
             p = pathlib.Path(d) / names[i]
             res['path'].rename(p)
+            if row_perm is not None:
+                # the same permutation for every dataset: the files must
+                # agree on cluster_to_row to be mergeable
+                permute_stats_file(p, row_perm)
+                res['stats'] = read_stats(p)
             paths.append(str(p))
             per.append(res['stats'])
         out_path = pathlib.Path(d) / 'merged.h5'
@@ -987,7 +1087,7 @@ def check_merge(ctx, ref, cfg, rng, subsets=None):
                     found_input=False)
 
 
-def check_read(ctx, ref, cfg):
+def check_read(ctx, ref, cfg, row_perm='random'):
     """read_precomputed_stats addressing + aggregate_stats"""
     from cell_type_mapper.diff_exp.score_utils import read_precomputed_stats
     from cell_type_mapper.taxonomy.taxonomy_tree import TaxonomyTree
@@ -995,11 +1095,19 @@ def check_read(ctx, ref, cfg):
     anc = ref.ancestors()
     tol = tol_of(cfg)
     eff = effective_label(ref, cfg)
-    detail = ref_detail(ref, cfg, {'kind': 'read'})
+    if row_perm == 'random':
+        row_perm = random_perm(ctx.rng, len(ref.leaves)) \
+            if ctx.rng.random() < 0.7 else None
+    ctx.count('read-rows:%s' % ('permuted' if row_perm is not None
+                                else 'alphabetical'))
+    detail = ref_detail(ref, cfg, {'kind': 'read', 'row_perm': row_perm})
     with pipeline.workdir('c09r_') as d:
         res = run_precompute(ref, cfg, d)
         if not res['ok']:
             return
+        if row_perm is not None:
+            permute_stats_file(res['path'], row_perm)
+            res['stats'] = read_stats(res['path'])
         with pipeline.quiet():
             tt = TaxonomyTree(data=ref.tree_with_cells())
             got = read_precomputed_stats(res['path'], tt,
@@ -1157,8 +1265,19 @@ def replay(ctx, data, from_corpus=False):
             if b is not None:
                 check_run(ctx, ref, cfg, baseline=(b, c2))
     elif kind in ('truncate', 'truncate-bad'):
-        check_truncate(ctx, ref, cfg)
+        if 'row_perm' in d and 'new_hierarchy' in d and kind == 'truncate':
+            check_truncate(ctx, ref, cfg, row_perm=d['row_perm'],
+                           only=[d['new_hierarchy'],
+                                 d.get('second_hierarchy')])
+        else:
+            # hand-written case: alphabetical rows, then reversed rows
+            check_truncate(ctx, ref, cfg, row_perm=None)
+            check_truncate(ctx, ref, cfg, row_perm=list(
+                reversed(range(len(ref.leaves)))))
     elif kind == 'merge':
-        check_merge(ctx, ref, cfg, None, subsets=d.get('subsets'))
+        check_merge(ctx, ref, cfg, None, subsets=d.get('subsets'),
+                    row_perm=d.get('row_perm', list(
+                        reversed(range(len(ref.leaves))))))
     elif kind == 'read':
-        check_read(ctx, ref, cfg)
+        check_read(ctx, ref, cfg, row_perm=d.get('row_perm', list(
+            reversed(range(len(ref.leaves))))))
